@@ -12,7 +12,7 @@ const EXPRS: [&str; 5] = [
     "-name a -o -iname A -o -name 'a*' -o -path b -o -name a -print",
     "-name x -fprint f -o -name y -fprint0 f -o -iname z -fprintf g '%p' -o -print0 -o -name x -fprint g",
     "-mtime -7 -name '*.log' -print -o -amin +5 -iname '*.TMP' -printf '%p %s\\n'",
-    "( -type f -size +1M -fprint big ) , ( -perm -u+x -name q -fprint0 exe ) , ( -cmin 3 -uid 0 -fprintf root '%p %U\\n' )",
+    "( -type f,l,d,s,p,b,c -size +1M -fprint big ) , ( -perm -u+x -name q -fprint0 exe ) , ( -cmin 3 -uid 0 -fprintf root '%p %U\\n' )",
     "-pool flash -xattr user.tag -name a -name b -name c -iname a -ipath b -print -printf '%f\\n' -print",
 ];
 
@@ -127,7 +127,27 @@ fn check_history(h: &[usize], first: &[Obs], acc: &mut Acc) {
 }
 
 /// child side: print one line per expression
+/// Inputs that are refused (by the parser or by compile): the error text is part of the answer
+/// and must be the same in every call and every process.
+const REFUSED: [&str; 12] = [
+    "-printf 'a\\cb'",
+    "-name x -fprintf f '%p\\c'",
+    "-mmin -5 -user bob",
+    "-regex x",
+    "-printf '%d'",
+    "-ls",
+    "-uid x5",
+    "-name",
+    "( -name a",
+    "-type f,q",
+    "-perm u+z",
+    "-printf '%q'",
+];
+
 pub fn child_dump() -> i32 {
+    for r in REFUSED {
+        println!("{}", json!({"refused": r, "answer": crate::subject::whole_answer(r)}));
+    }
     let extra: Vec<String> = std::env::var("FPVERIF_C15_EXTRA").ok().and_then(|t| serde_json::from_str(&t).ok()).unwrap_or_default();
     for e in EXPRS.iter().map(|s| s.to_string()).chain(extra) {
         match observe(&e) {
@@ -170,7 +190,7 @@ fn across_dates(acc: &mut Acc) -> String {
             .env("FPVERIF_CLOCK_OFFSET", offset.to_string())
             .output()
             .ok()?;
-        Some(String::from_utf8_lossy(&o.stdout).lines().skip(EXPRS.len()).map(|l| l.to_string()).collect())
+        Some(String::from_utf8_lossy(&o.stdout).lines().skip(EXPRS.len() + REFUSED.len()).map(|l| l.to_string()).collect())
     };
     let Some(base) = dump(0) else { return "child failed".into() };
     let mut compared = 0;
@@ -476,7 +496,7 @@ pub fn run(ctx: &Ctx) -> i32 {
             "-amin +5x",
             "-name aaaaaaaaaaaaaaaaaaaaaaaaaaaaaaaaaaaaaaaaaaaaaaaaaaaaaaaaaaaaaa -o -uid oops",
             "-printf '%p %z\\n'",
-            "( -type f -size +1M -fprint big ) , ( -perm -u+x -fprint0 exe )",
+            "( -type f,l,d,s,p,b,c -size +1M -fprint big ) , ( -perm -u+x -fprint0 exe )",
             "-mmin -5 -user bob",
             "-mtime -7 -name '*.log' -printf '%p\\n'",
             "",
@@ -496,6 +516,21 @@ pub fn run(ctx: &Ctx) -> i32 {
                 "C15:answer-differs-when-other-threads-call-the-library",
                 format!("{} threads parse and compile their own texts at once; thread {k} ({:?}) got in round {r}:\n{}\n-- alone it gets --\n{}", texts.len(), short(&texts[k]), got.chars().take(600).collect::<String>(), want.chars().take(600).collect::<String>()),
                 json!({"kind": "concurrent-calls"}),
+            ));
+        }
+    }
+    // refused inputs: the same error text on every call, on this thread and on another
+    for r in REFUSED {
+        acc.states += 1;
+        acc.transitions += 3;
+        let a = crate::subject::whole_answer(r);
+        let b = crate::subject::whole_answer(r);
+        let c = std::thread::spawn(move || crate::subject::whole_answer(r)).join().unwrap_or_default();
+        if a != b || a != c {
+            acc.violate(Violation::new(
+                "C15:error-text-differs-between-calls",
+                format!("{r:?} is refused with different texts by three calls: {a:?} / {b:?} / {c:?}"),
+                json!({"kind": "refused", "input": r}),
             ));
         }
     }
@@ -565,7 +600,11 @@ pub fn run(ctx: &Ctx) -> i32 {
         }
     }
     // the in-process results must also equal what the fresh processes print
-    let mine: String = first.iter().map(|o| format!("{}\n", json!({"parsed": o.parsed, "program": o.program, "table_sorted": sorted_table(&o.table)}))).collect();
+    let mine: String = REFUSED
+        .iter()
+        .map(|r| format!("{}\n", json!({"refused": r, "answer": crate::subject::whole_answer(r)})))
+        .chain(first.iter().map(|o| format!("{}\n", json!({"parsed": o.parsed, "program": o.program, "table_sorted": sorted_table(&o.table)}))))
+        .collect();
     if !dumps.is_empty() && mine != dumps[0] {
         acc.violate(Violation::new("C15:result-differs-between-processes", "the driver process and a fresh process disagree".to_string(), json!({"kind": "processes", "n": nproc})));
     }
